@@ -148,7 +148,7 @@ pub fn plan_for(prop: &str, tier: &str) -> Option<Plan> {
             &["fresh_session", "ack_failure_code"],
         ),
         "C19" => (
-            vec![prog(Invalid, k(60_000)), prog(Limits, k(15_000)), prog(Sessions, k(15_000)), enumerated(Scenario::Table, if q { 96 * 304 } else { 960 * 304 })],
+            vec![prog(Invalid, k(60_000)), prog(Limits, k(15_000)), prog(Sessions, k(15_000)), enumerated(Scenario::Table, if q { 96 } else { 960 } * crate::scen2::table_cases())],
             "fault_enumeration",
             "27 property kinds x {publish, subscribe, unsubscribe, disconnect, will} x boundary values: the will column is enumerated in every Invalid run, Table enumerates the rest in random session states; random programs issue invalid requests at random points and check that nothing of them reaches the wire and that quiescence/can_publish/handles are unchanged; Maximum QoS x requested QoS x downgrade. non-trivial = an invalid-request probe was evaluated",
             &["invalid_probe_evaluated", "will_table_entry"],
@@ -182,7 +182,7 @@ pub fn plan_for(prop: &str, tier: &str) -> Option<Plan> {
             Scenario::FragTwin(0) | Scenario::FragTwin(2) => Some(32_768),
             Scenario::FragTwin(3) => Some(3_072),
             Scenario::FragTwin(4) => Some(192),
-            Scenario::Table => Some(96 * 304),
+            Scenario::Table => Some(96 * crate::scen2::table_cases()),
             _ => None,
         };
         let runs = if matches!(s, Scenario::Program(Profile::Aging)) { k(60) } else { k(500) };
